@@ -130,6 +130,7 @@ func (c *c12) l1Matrix(env *L1Env, past map[string][]string, log []string) {
 func (c *c12) l1(thorough bool) {
 	states := pick(thorough, 200, 8000)
 	env := newL1Env(2, []time.Duration{time.Hour, time.Hour})
+	env.EnableShadow(c.rng.U64())
 	past := map[string][]string{}
 	var log []string
 	for s := 0; s < states && !c.run.TooMany(); s++ {
@@ -450,6 +451,7 @@ func (c *c12) binding(thorough bool) {
 func (c *c12) l2(thorough bool) {
 	states := pick(thorough, 150, 6000)
 	o := newOracleEnv([]int64{1, 1, 1}, []string{"BTC/USD"})
+	o.EnableShadow(c.rng.U64()) // other transactions (incl. role changes) run on discarded branches before every probe
 	l2 := o.L2
 	l2.FundModule(authtypes.FeeCollectorName, sdk.NewCoin("ufee", math.NewInt(1_000_000)))
 	admin := o.Admin.String()
